@@ -27,6 +27,7 @@ CATALOG = [
     ("rev-4286cb7", "revert", "fix_4286cb7.diff", [("R-VARFIELD", "BitSequenceRRR::build#set_var_field-fin-32bit"), ("R-VARFIELD", "BitSequenceRRR::rank1#get_var_field-fin-32bit")]),
     ("rev-a39b29e", "revert", "fix_a39b29e.diff", [("R-COPYBOUND", "IteratorDictStringXBW::IteratorDictStringXBW#copy-into-str")]),
     ("rev-d7ae549", "revert", "fix_d7ae549.diff", [("R-DELETECAST", "XBW::XBW#delete-BitSequenceBuilder-as-SequenceBuilderWaveletTree")]),
+    ("rev-10af8a5", "revert", "fix_10af8a5.diff", [("R-CURSORFILL", "StringDictionaryHTFC::StringDictionaryHTFC#bytesStrings-advanced-without-store"), ("R-CURSORFILL", "StringDictionaryHHTFC::StringDictionaryHHTFC#bytesStrings-advanced-without-store")]),
     ("rev-7838953", "revert", "fix_7838953.diff", [("R-STALEVAR", "SSA::locate#stale-local")]),
     ("rev-e3ad698", "revert", "fix_e3ad698.diff", [("R-TAGS", "missing:StringDictionaryHASHRPDACBlocks")]),
     ("rev-37096d0", "revert", "fix_37096d0.diff", [("R-EXTENT", "DAC_BVLS::levelsIndex")]),
